@@ -31,4 +31,24 @@ META = {
   text="The requiredness rule is proved for every validator string (List Char, Go strings.Split semantics); parameters = non-context path/query/header parameters in order, success and error responses under their codes are theorems on the emitter model; each run compares parameter lists, JSON and form bodies and response tables of the real 3.0/3.1 documents with the model and evaluates the clauses on the documents themselves.",
   note="Trusted: Lean kernel, standard axioms, hand-written model, harness.",
  ),
+ "C02": dict(
+  technique="Lean 4 proof (registration table = annotated methods; documented subset of served, difference = hidden; served template = documented path) + go/ast extraction of the rendered routers vs model",
+  text="One registration per annotated method with its verb (hidden included), documented operations are a subset of the registrations and exactly the hidden ones are missing, and the registered template equals the documented path: theorems on the model. Every run renders real routers for generated IR, extracts the registration table and the URL-converter shape with go/ast, and compares them with the model for each engine; the served-vs-documented equality is evaluated on every route.",
+  note="Trusted: Lean kernel, standard axioms, model, go/ast extraction. Framework dispatch is sampled (rig), not proved. Holds after fix c0f9845 (URL converters).",
+ ),
+ "C03": dict(
+  technique="Lean 4 proof (gate-first for every handler; authorize() characterised for every stateful callback; no controller step unless approved) + go/ast extraction of handler skeleton and authorize() shape for five engines",
+  text="For every route and every (stateful, adversarial) authorization callback the model handler runs no parsing or controller step unless authorize() approved, which happens only if the route has no effective security or some alternative was approved check by check; a refusal ends the handler with the refusal. Each run checks on the rendered Go code of all engines that the authorize call and its guard precede everything else and that authorize() has the modelled shape.",
+  note="Trusted: Lean kernel, standard axioms, model, go/ast extraction; the real callback and frameworks are exercised by the rig stream only.",
+ ),
+ "C05": dict(
+  technique="Lean 4 proof (conversion table accepts exactly the declared integer type's values - decided over the table; argument order; required => 422) + extraction of binding steps from the rendered routers",
+  text="For each integer row of the conversion table strconv's range check coincides with the declared Go type (so all boundary integers convert and nothing else does), arguments are passed in signature order with declared pointer-ness, and non-pointer/path parameters are rejected with 422 when absent, for every validator string. Each run compares declared types, accessors (by location), wire names, strconv function + bit size, validator tags and call arguments extracted from the rendered routers with the model.",
+  note="Trusted: Lean kernel, standard axioms, model, extraction, strconv decimal parsing, validator's nil-fails-required. Framework accessors/floats/custom validators: rig stream. Holds after fix cf25840 (uint bit size).",
+ ),
+ "C12": dict(
+  technique="Lean 4 proof (engine-free handler model, uniform authorize/URL-converter classes, accessor coverage decided over the tables) + five-way implementation-vs-implementation comparison of rendered routers",
+  text="The model has no engine parameter: that the five template sets render the same engine-erased handler is established on every run by comparing the five go/ast extractions with each other and with the model. Interchangeability of traces then follows for equal framework inputs.",
+  note="Partial by nature: AccessorsAgree (frameworks deliver equal raw values) is sampled by the rig stream, not proved.",
+ ),
 }
